@@ -201,6 +201,7 @@ int sim_fcntl(int fd, int cmd, ...)
     case F_SETFD: which = 1; break;
     case F_GETFL: which = 2; break;
     case F_SETFL: which = 3; break;
+    case F_DUPFD_CLOEXEC: which = 5; break;
     default: which = 4; break;
   }
   CB(f, "sim_fcntl");
